@@ -76,6 +76,11 @@ class JobAcc:
             formula = formula.e
         if isinstance(formula, bool):
             formula = z3.BoolVal(formula)
+        fs = z3.simplify(formula)
+        if z3.is_true(fs):  # closed formula that evaluates to true: nothing to send to the solver
+            r["discharged"] += 1
+            r["trivial"] = r.get("trivial", 0) + 1
+            return "unsat"
         # a fresh (non-incremental) solver: z3's incremental mode uses a much weaker NRA strategy
         s = z3.Solver()
         s.set("timeout", self.ob_timeout_ms)
@@ -107,6 +112,50 @@ class JobAcc:
                 "extra": extra or {}, "incomplete_path": ctx.incomplete,
             })
         return "sat"
+
+    def check_all(self, ctx, items, assumptions=()):
+        """items: list of (name, formula, signature, extra).  One solver call for the conjunction; on failure each
+        obligation is checked on its own so that the failing one is identified."""
+        norm = []
+        for it in items:
+            name, formula = it[0], it[1]
+            sig = it[2] if len(it) > 2 else None
+            extra = it[3] if len(it) > 3 else None
+            if isinstance(formula, core.SBool):
+                formula = formula.e
+            if isinstance(formula, bool):
+                formula = z3.BoolVal(formula)
+            norm.append((name, formula, sig, extra))
+        if not norm:
+            return "unsat"
+        conj = z3.simplify(z3.And([f for _, f, _, _ in norm]))
+        res = None
+        if z3.is_true(conj):
+            res = z3.unsat
+        elif not z3.is_false(conj):
+            s = z3.Solver()
+            s.set("timeout", self.ob_timeout_ms)
+            s.add(*ctx.pc)
+            for a in assumptions:
+                s.add(a)
+            s.add(z3.Not(conj))
+            t = time.time()
+            res = s.check()
+            self.r["ob_solver_s"] += time.time() - t
+            self.r["queries"] += 1
+        if res == z3.unsat:
+            r = self.r
+            for name, _, _, _ in norm:
+                r["obligations"] += 1
+                r["discharged"] += 1
+                r["ob_names"][name] = r["ob_names"].get(name, 0) + 1
+            return "unsat"
+        out = "unsat"
+        for name, f, sig, extra in norm:
+            x = self.check(ctx, name, f, signature=sig, extra=extra, assumptions=assumptions)
+            if x != "unsat":
+                out = x
+        return out
 
     def canary(self, ctx, name, formula):
         """A deliberately false obligation: must come back sat (reachability / non-vacuity twin)."""
